@@ -10,7 +10,11 @@ def ops_jobs(run: Run, prop: str, quick: bool, n_quick: int = 200, n_thorough: i
     jobs, info = [], {}
     for label, d in docs.matrix_docs():
         j = run.job(d, want=[], plan={"fn": "ops", "args": {"seed": seed(), "calls_per_op": 3, "import": False}}, cfg={"literal_enums": label.startswith("3.1")})
-        info[j["id"]] = {"label": "matrix:" + label, "cfg": {"literal_enums": label.startswith("3.1")}, "features": {label.split(":")[1]}}
+        info[j["id"]] = {"label": "matrix:" + label, "cfg": {"literal_enums": label.startswith("3.1")}, "features": {label.split(":")[1]}, "deterministic_valid": True}
+        jobs.append(j)
+    for label, d in docs.sharing_docs():
+        j = run.job(d, want=[], plan={"fn": "ops", "args": {"seed": seed(), "calls_per_op": 3, "import": False}}, cfg={})
+        info[j["id"]] = {"label": label, "cfg": {}, "features": {"sharing", label}, "deterministic_valid": True}
         jobs.append(j)
     n = n_quick if quick else n_thorough
     for i in range(n):
